@@ -56,7 +56,7 @@ theorem sampleFiles_shuffled : sortHeaders sampleFiles.reverse = some sampleFile
   · apply sortChildren_eval
     · decide
     · apply go_eval_cons
-      · apply sortChildren_eval' _ _ _ _ _ h3
+      · apply sortChildren_evalSorted _ _ _ _ _ h3
         exact sortChildren.go.eq_1 _ _
       · apply go_eval_cons
         · apply sortChildren_eval
